@@ -473,7 +473,56 @@ fn loosen<'a, T: 'a>(s: S<'a, T>, m: usize) -> S<'a, T> {
     })))
 }
 
-pub fn apply_stage<'a>(arena: &'a Arena, s: Stream<'a>, st: &Stage) -> Result<Stream<'a>, String> {
+fn scanned<'a, T: 'a>(s: S<'a, T>) -> S<'a, T> {
+    S::fw(s.into_fw().scan(0usize, |seen, x| {
+        *seen += 1;
+        Some(x)
+    }))
+}
+
+fn trusted_with<'a, T: 'a>(s: S<'a, T>, len: usize) -> S<'a, T> {
+    match s {
+        S::De(d) => S::de(d.to_trust(len)),
+        S::Fw(f) => S::fw(f.to_trust(len)),
+        S::Pl(p) => S::fw(p.to_trust(len)),
+    }
+}
+
+macro_rules! each_variant {
+    ($s:expr, $x:ident => $e:expr) => {
+        match $s {
+            Stream::F64($x) => Stream::F64($e),
+            Stream::I32($x) => Stream::I32($e),
+            Stream::OF64($x) => Stream::OF64($e),
+            Stream::OI32($x) => Stream::OI32($e),
+            Stream::Trk($x) => Stream::Trk($e),
+            Stream::RF64($x) => Stream::RF64($e),
+            Stream::RI32($x) => Stream::RI32($e),
+            Stream::ROF64($x) => Stream::ROF64($e),
+            Stream::ROI32($x) => Stream::ROI32($e),
+            Stream::RTrk($x) => Stream::RTrk($e),
+        }
+    };
+}
+
+/// `len_left`: the number of items really left in `s` (resolved beforehand by a probe), used
+/// by `to_trust`
+pub fn apply_stage<'a>(
+    arena: &'a Arena,
+    s: Stream<'a>,
+    st: &Stage,
+    len_left: Option<usize>,
+) -> Result<Stream<'a>, String> {
+    if let Stage::ToTrust = st {
+        let Some(n) = len_left else { return bad("to_trust without a resolved length") };
+        return Ok(each_variant!(s, x => trusted_with(x, n)));
+    }
+    if s.is_plain() && !matches!(st, Stage::MapId | Stage::Loose { .. }) {
+        return bad("only map applies to an untrusted stream");
+    }
+    if let Stage::Scan = st {
+        return Ok(each_variant!(s, x => scanned(x)));
+    }
     if let Stage::Loose { m } = st {
         return Ok(match s {
             Stream::F64(s) => Stream::F64(loosen(s, *m)),
@@ -487,9 +536,6 @@ pub fn apply_stage<'a>(arena: &'a Arena, s: Stream<'a>, st: &Stage) -> Result<St
             Stream::ROI32(s) => Stream::ROI32(loosen(s, *m)),
             Stream::RTrk(s) => Stream::RTrk(loosen(s, *m)),
         });
-    }
-    if s.is_plain() && !matches!(st, Stage::MapId) {
-        return bad("only map applies to an untrusted stream");
     }
     match s {
         Stream::F64(s) => stage_f64(arena, s, st),
@@ -547,14 +593,32 @@ pub fn apply_stage<'a>(arena: &'a Arena, s: Stream<'a>, st: &Stage) -> Result<St
 // running the consumer script
 
 /// Build the root and replay `ops[..upto]`. Items pulled on the way are appended to `pulled`.
+/// For every `to_trust` step before `upto`: the number of items really left at that point,
+/// measured by a (nested) probe of the truncated program. Must run before the caller resets
+/// the run-local registries.
+pub fn resolve_lens(p: &Pipe, upto: usize) -> Result<Vec<Option<usize>>, String> {
+    let mut lens = vec![None; p.ops.len()];
+    for i in 0..upto {
+        if matches!(p.ops[i], Op::Wrap(Stage::ToTrust)) {
+            let o = probe(p, i)?;
+            if o.capped {
+                return Err("DOCUMENTED-ERR: stream too long to declare its length".into());
+            }
+            lens[i] = Some(o.drained.len());
+        }
+    }
+    Ok(lens)
+}
+
 pub fn replay<'a>(
     arena: &'a Arena,
     p: &Pipe,
     upto: usize,
+    lens: &[Option<usize>],
     pulled: &mut Vec<Option<Obs>>,
 ) -> Result<Stream<'a>, String> {
     let mut s = build_root(arena, p)?;
-    for op in &p.ops[..upto] {
+    for (i, op) in p.ops[..upto].iter().enumerate() {
         match op {
             Op::Next => pulled.push(s.next_obs()),
             Op::NextBack => {
@@ -570,7 +634,7 @@ pub fn replay<'a>(
                 }
                 pulled.push(s.nth_back_obs(*k))
             },
-            Op::Wrap(st) => s = apply_stage(arena, s, st)?,
+            Op::Wrap(st) => s = apply_stage(arena, s, st, lens.get(i).copied().flatten())?,
         }
     }
     Ok(s)
@@ -595,12 +659,13 @@ pub struct ProbeOut {
 /// Replay `ops[..cut]`, read the hint, then count the rest by plain safe iteration.
 /// `Err` carries the panic message (or a HARNESS / DOCUMENTED-ERR marker).
 pub fn probe(p: &Pipe, cut: usize) -> Result<ProbeOut, String> {
+    let lens = resolve_lens(p, cut)?;
     trk_reset();
     SIM_PULLS.with(|c| c.set(0));
     let r = guarded(|| {
         let arena = Arena::new();
         let mut pulled = Vec::new();
-        let out = match replay(&arena, p, cut, &mut pulled) {
+        let out = match replay(&arena, p, cut, &lens, &mut pulled) {
             Err(e) => Err(e),
             Ok(mut s) => {
                 let hint = s.size_hint();
@@ -1124,12 +1189,13 @@ fn run_sink<'a>(s: Stream<'a>, sink: &Sink, remaining: usize) -> Result<SinkRes,
 /// Replay the whole script and perform the terminal operation for real. Must only be called
 /// after every probe of the program was clean (so no raw-pointer collector sees a wrong hint).
 pub fn commit(p: &Pipe, remaining: usize) -> Result<CommitOut, String> {
+    let lens = resolve_lens(p, p.ops.len())?;
     trk_reset();
     let _ = sim_log_take();
     let r = guarded(|| {
         let arena = Arena::new();
         let mut pulled = Vec::new();
-        let out = match replay(&arena, p, p.ops.len(), &mut pulled) {
+        let out = match replay(&arena, p, p.ops.len(), &lens, &mut pulled) {
             Err(e) => Err(e),
             Ok(mut s) => match &p.terminal {
                 Terminal::Drain => {
